@@ -141,51 +141,57 @@ where
     Ok(CaseInfo::new(n * m > 0, format!("unflatten-{}", ["owned", "ref", "mut"][form as usize])))
 }
 
+// NOTE: generic functions, called from the macros (see the note in main.rs on MIR building time)
+fn flat_cases<E: Elem, N, M>(ctx: &mut Ctx)
+where
+    N: ArrayLength + Mul<M>,
+    M: ArrayLength,
+    Prod<N, M>: ArrayLength,
+{
+    for form in 0u8..3 {
+        let fname = ["owned", "ref", "mut"][form as usize];
+        ctx.case(&format!("C11;flatten-{fname};N={};M={};E={}", N::USIZE, M::USIZE, E::NAME), || flat::<E, N, M>(form));
+    }
+}
+fn unflat_cases<E: Elem, N, M>(ctx: &mut Ctx)
+where
+    N: ArrayLength + Mul<M>,
+    M: ArrayLength,
+    Prod<N, M>: ArrayLength + Div<N, Output = M>,
+{
+    for form in 0u8..3 {
+        let fname = ["owned", "ref", "mut"][form as usize];
+        ctx.case(&format!("C11;unflatten-{fname};N={};M={};E={}", N::USIZE, M::USIZE, E::NAME), || unflat::<E, N, M>(form));
+    }
+}
+
 macro_rules! pair {
-    ($ctx:expr, $n:ty, $m:ty) => {{
-        macro_rules! pe {
-            ($E:ty) => {
-                for form in 0u8..3 {
-                    let fname = ["owned", "ref", "mut"][form as usize];
-                    $ctx.case(&format!("C11;flatten-{fname};N={};M={};E={}", <$n>::USIZE, <$m>::USIZE, <$E as Elem>::NAME), || flat::<$E, $n, $m>(form));
-                }
-            };
-        }
-        pe!(Tr<0>);
-        pe!(TrZ);
-        pe!(u8);
-        pe!(u64);
-        pe!(B3);
+    ($ctx:expr, $n:ty, $m:ty) => { if <$n>::USIZE.max(<$m>::USIZE) <= crate::maxn() {
+        flat_cases::<Tr<0>, $n, $m>($ctx);
+        flat_cases::<TrZ, $n, $m>($ctx);
+        flat_cases::<u8, $n, $m>($ctx);
+        flat_cases::<u64, $n, $m>($ctx);
+        flat_cases::<B3, $n, $m>($ctx);
         // (the over-aligned 32- and 64-byte elements only up to 1024 elements: larger by-value arrays of them overflow the
         // stack of an unoptimised build - a limit of the harness, not of the crate)
         if <$n>::USIZE * <$m>::USIZE <= 1024 {
-            pe!(A64);
-            pe!(TrA);
+            flat_cases::<A64, $n, $m>($ctx);
+            flat_cases::<TrA, $n, $m>($ctx);
         }
-    }};
+    } };
 }
 macro_rules! upair {
-    ($ctx:expr, $n:ty, $m:ty) => {{
-        macro_rules! pe {
-            ($E:ty) => {
-                for form in 0u8..3 {
-                    let fname = ["owned", "ref", "mut"][form as usize];
-                    $ctx.case(&format!("C11;unflatten-{fname};N={};M={};E={}", <$n>::USIZE, <$m>::USIZE, <$E as Elem>::NAME), || unflat::<$E, $n, $m>(form));
-                }
-            };
-        }
-        pe!(Tr<0>);
-        pe!(TrZ);
-        pe!(u8);
-        pe!(u64);
-        pe!(B3);
-        // (the over-aligned 32- and 64-byte elements only up to 1024 elements: larger by-value arrays of them overflow the
-        // stack of an unoptimised build - a limit of the harness, not of the crate)
+    ($ctx:expr, $n:ty, $m:ty) => { if <$n>::USIZE.max(<$m>::USIZE) <= crate::maxn() {
+        unflat_cases::<Tr<0>, $n, $m>($ctx);
+        unflat_cases::<TrZ, $n, $m>($ctx);
+        unflat_cases::<u8, $n, $m>($ctx);
+        unflat_cases::<u64, $n, $m>($ctx);
+        unflat_cases::<B3, $n, $m>($ctx);
         if <$n>::USIZE * <$m>::USIZE <= 1024 {
-            pe!(A64);
-            pe!(TrA);
+            unflat_cases::<A64, $n, $m>($ctx);
+            unflat_cases::<TrA, $n, $m>($ctx);
         }
-    }};
+    } };
 }
 macro_rules! grid {
     ($mac:ident, $ctx:expr, [$($n:ty),*], $ms:tt) => { $( grid!(@row $mac, $ctx, $n, $ms); )* };
